@@ -7,7 +7,7 @@
 (* A trace of kind "rt" is one format -> parse -> format execution on a    *)
 (* random structure (deeper than the model-checked space):                 *)
 (*   [kind, r, t, p, warn, exc, t2, same,                                  *)
-(*    p2, warn2, same2, rs, ts, ps, warns, sames, fmtsame]                 *)
+(*    re, rs, ts, ps, warns, sames, fmtsame]                               *)
 (*   r     the structure given to PkgRelation.str (atoms as in PkgRelation,*)
 (*         payload strings interned to ids)                                *)
 (*   t     the produced string as token codes (independent tokenizer of    *)
@@ -27,9 +27,10 @@
 (*   5 history (PkgRelationMemo): after step 4 the harness EDITED the      *)
 (*     returned structure in place (appended to every arch list, reversed  *)
 (*     and extended every restriction formula, popped keys) and parsed the *)
-(*     SAME string again: p2 / warn2 / same2 (str(p2) == the string).      *)
-(*     Parse(t) -- memo-free, history-free -- must still explain it:       *)
-(*     Parse(t) = p2 = r, no warning                                       *)
+(*     SAME string again, edited THAT result and parsed a third time:      *)
+(*     re = <<[p, warn, same]>> (same: str(p) == the string).  Parse(t) -- *)
+(*     memo-free, history-free -- must still explain every one of them:    *)
+(*     Parse(t) = re[i].p = r, no warning                                  *)
 (*   6 then a DIFFERENT relation rs that shares an alternative with r was  *)
 (*     formatted (ts), parsed (ps, warns) and formatted again (sames):     *)
 (*     Parse(ts) = ps = rs, no warning; fmtsame: str(r) gave the first     *)
@@ -91,11 +92,13 @@ TStable == /\ Tr.kind = "rt"
 
 TReparse == /\ Tr.kind = "rt"
             /\ l = 5
+            /\ Len(Tr.re) >= 2
             /\ LET p == Parse(Toks(Tr.t))
-               IN ~p.exc /\ p.warn = Tr.warn2 /\ p.rel = Tr.p2
-            /\ ~Tr.warn2
-            /\ Tr.p2 = Tr.r
-            /\ Tr.same2
+               IN \A i \in 1..Len(Tr.re) :
+                     /\ ~p.exc /\ p.warn = Tr.re[i].warn /\ p.rel = Tr.re[i].p
+                     /\ ~Tr.re[i].warn
+                     /\ Tr.re[i].p = Tr.r
+                     /\ Tr.re[i].same
             /\ Advance
 
 TShare == /\ Tr.kind = "rt"
